@@ -177,6 +177,9 @@ func (zns *ZnPMServer) StartMaster(connUrl string, cfg ZnPMServerConfig) error {
 
 // // fork child processes
 func (zns *ZnPMServer) spawnProcess(cfg ZnPMServerConfig, l *net.TCPListener, p *pipe) error {
+	if verifSpawn != nil {
+		return verifSpawn(zns)
+	}
 	// prepare net.Conn file to transfer to child processes
 	lf, err := l.File()
 	if err != nil {
